@@ -70,9 +70,35 @@ class UnitX(Unit):
     props = ('C02', 'C08')
     parts = ('field', 'flatten', 'extension', 'complex_type')
 
+    def _splice(self, out, it, file, fid, **kw):
+        """splice_fn, except that a lost anchor in THIS function does not blind the unit: the function is then emitted as a declaration with its
+        contract (so that its callers are still verified against it) and its own clauses are recorded as undecided (decided by the replay, or exit 2)"""
+        snap = (len(out.chunks), dict(out.fns), len(out.edits), len(out.dropped), dict(out.unconstrained), len(out.imported))
+        try:
+            return splice_fn(out, it, file, fid, **kw)
+        except AnchorLost as e:
+            del out.chunks[snap[0]:]
+            out.fns = snap[1]
+            del out.edits[snap[2]:]
+            del out.dropped[snap[3]:]
+            out.unconstrained = snap[4]
+            del out.imported[snap[5]:]
+            out._cur_fn = None
+            keep = {k: kw[k] for k in ('ensures', 'requires', 'origin') if k in kw}
+            # declaration only: the body is dropped (it may use constructs the stand-ins do not have), the contract stays for the callers
+            out.spec('    #[verifier::external_body]')
+            out.chunks[-1].trusted = True
+            splice_fn(out, it, file, fid, drop_body=True, **keep)
+            if out.chunks[-1].text.strip() == ';':
+                out.chunks[-1].text = '{ unimplemented!() }\n'
+            out.imported.append(f'{fid}: NOT VERIFIED in this run (anchor lost: {e}); emitted as a declaration with its contract, its clauses are undecided')
+            self.lost.append((fid, [f'{fid}#{lab}' for lab, _ in kw.get('ensures', ())], str(e)))
+            return None
+
     def build(self, repo, probe=False):
         out = Out()
         G = Gen(repo)
+        self.lost = []
         out.spec('#![feature(allocator_api)]\n#![feature(pattern)]\n#![allow(unused_imports)]\n' + HEAD)
         self._trusted = prelude(out, ['ax-rc', 'ax-string-eq', 'ax-str-ext', 'ax-display-ref', 'ax-hash-string', 'ax-split-once', 'stdspec-contains',
                                       'stdspec-as-deref', 'stdspec-option-combinators', 'stdspec-split-once', 'stdspec-string-eq-str', 'stdspec-starts-with', 'stdspec-trim',
@@ -134,7 +160,7 @@ class UnitX(Unit):
     def emit_flatten(self, out, G, rel, f, probe):
         APP = 'res is Ok ==> appended((*old(base_fields))@, (*final(base_fields))@, members(*old(node)))'
         fn = G.top(rel, 'fn', 'import_sequence_node_fields')
-        splice_fn(out, fn, f, 'complex::import_sequence_node_fields', probe=probe,
+        self._splice(out, fn, f, 'complex::import_sequence_node_fields', probe=probe,
                   ensures=[('one-field-per-member-in-order', APP), ('node-unchanged', '*final(node) == *old(node)')],
                   origin={'one-field-per-member-in-order': 'property', 'node-unchanged': 'helper'},
                   decreases='height(*old(node)), 1nat',
@@ -152,12 +178,12 @@ class UnitX(Unit):
         out.edits.append('complex::import_sequence_node_fields: the element bound by the loop (`let mut child = children[i__]; i__ += 1;`) is '
                          'inserted at the start of the loop body (see the index-loop presentation)')
         fn = G.top(rel, 'fn', 'import_choice_fields')
-        splice_fn(out, fn, f, 'complex::import_choice_fields', probe=probe,
+        self._splice(out, fn, f, 'complex::import_choice_fields', probe=probe,
                   ensures=[('one-field-per-member-in-order', APP), ('node-unchanged', '*final(node) == *old(node)')],
                   origin={'one-field-per-member-in-order': 'property', 'node-unchanged': 'helper'},
                   decreases='height(*old(node)), 2nat')
         fn = G.top(rel, 'fn', 'read_sequence_node')
-        splice_fn(out, fn, f, 'complex::read_sequence_node', probe=probe,
+        self._splice(out, fn, f, 'complex::read_sequence_node', probe=probe,
                   ensures=[('fields-are-the-members', 'res is Ok ==> fields_are(res->Ok_0.fields@, members(node))'),
                            ('named-as-asked', 'res is Ok ==> res->Ok_0.xml_name@ == element_name@')],
                   origin={'fields-are-the-members': 'property', 'named-as-asked': 'helper'})
@@ -175,7 +201,7 @@ class UnitX(Unit):
         bn, en = mb.group(1), me.group(1)
         uniq = _re.sub(r'\bbase_node\b', bn, UNIQ_EXT)
         uniq = _re.sub(r'\bbase\b(?!0|_)', en, uniq) if en != 'base' else uniq
-        splice_fn(out, fn, f, 'complex::import_extension_fields', probe=probe, loop_isolation=False,
+        self._splice(out, fn, f, 'complex::import_extension_fields', probe=probe, loop_isolation=False,
                   ensures=[('node-unchanged', '*final(node) == *old(node)'),
                            ('no-extension-no-change', 'res is Ok && no_ext(*old(node)) ==> (*final(base_fields))@ == (*old(base_fields))@'),
                            ('base-members-then-own',
@@ -196,7 +222,7 @@ class UnitX(Unit):
                                             ('fields-so-far', 'appended(start, base_fields@, ext_own(base, it.index@ as nat))')],
                              'body_prefix': BROADCAST + '\n            proof { assert(n == elem_kids(base)[it.index@ as int]); }'}})
         fn = G.top(rel, 'fn', 'read_complex_content_node')
-        splice_fn(out, fn, f, 'complex::read_complex_content_node', probe=probe,
+        self._splice(out, fn, f, 'complex::read_complex_content_node', probe=probe,
                   ensures=[('derived-type-is-base-then-own', 'res is Ok ==> cc_ok(*old(doc), node, res->Ok_0.fields@)'),
                            ('named-as-asked', 'res is Ok ==> res->Ok_0.xml_name@ == element_name@')],
                   origin={'derived-type-is-base-then-own': 'property', 'named-as-asked': 'helper'},
@@ -228,7 +254,7 @@ class UnitX(Unit):
             before = fn.body[:m.start()].rstrip()
             by_ref = before.endswith('.any(')
             choice_closures.append({'at': CH, 'occurrence': k, 'ensures': 'b == (tag(*n) == "choice"@)' if by_ref else 'b == (tag(n) == "choice"@)'})
-        splice_fn(out, fn, f, 'field::Field::try_from_node', probe=probe, specified=('take_while', 'starts_with'),
+        self._splice(out, fn, f, 'field::Field::try_from_node', probe=probe, specified=('take_while', 'starts_with'),
                   ensures=[('flags-follow-the-declaration', 'res is Ok ==> is_field_of(res->Ok_0, node)')],
                   origin={'flags-follow-the-declaration': 'property'},
                   opaque=[{'at': 'target_namespace.clone_from(&doc.current_target_namespace)', 'call': 'target_namespace = (doc.current_target_namespace).clone()',
@@ -268,7 +294,7 @@ class UnitX(Unit):
                 }
             }
 '''
-        splice_fn(out, fn, f, 'simple::SimpleProps::try_from_node', probe=probe,
+        self._splice(out, fn, f, 'simple::SimpleProps::try_from_node', probe=probe,
                   ensures=[('facets-of-its-restriction', 'res is Ok ==> simple_ok(node, res->Ok_0)')],
                   origin={'facets-of-its-restriction': 'property'},
                   closures=[{'at': '|n| n.is_element() && n.tag_name().name() == "restriction"', 'ensures': 'b == is_restr(*n)'},
@@ -285,7 +311,7 @@ class UnitX(Unit):
         rel = 'model/structures/restrictions.rs'
         f = SRC + rel
         fn = G.top(rel, 'fn', 'get_restriction_from_attribute_or_node')
-        splice_fn(out, fn, f, 'restrictions::get_restriction_from_attribute_or_node', probe=probe, specified=('trim',),
+        self._splice(out, fn, f, 'restrictions::get_restriction_from_attribute_or_node', probe=probe, specified=('trim',),
                   ensures=[('facet-from-attribute-or-first-child', 'facet_is(restriction, restriction_name@, opt_view(*old(target_field)), opt_view(*final(target_field)))')],
                   origin={'facet-from-attribute-or-first-child': 'property'},
                   closures=[{'at': '|n| n.tag_name().name() == restriction_name', 'ensures': 'b == (tag(*n) == restriction_name@)'}],
@@ -298,7 +324,7 @@ class UnitX(Unit):
         m = _re.search(r'restriction\s*\.children\(\)\s*\.filter\(.*?\.collect::<Vec<String>>\(\)', fn.body, _re.S)
         if not m:
             raise AnchorLost('restrictions::build_restrictions: the enumeration expression was not found')
-        splice_fn(out, fn, f, 'restrictions::build_restrictions', probe=probe,
+        self._splice(out, fn, f, 'restrictions::build_restrictions', probe=probe,
                   ensures=[(f'facet-{x}', f'facet_is(restriction, "{x}"@, None, opt_view(res.{fld}))') for fld, x in FACETS],
                   origin={f'facet-{x}': 'property' for _, x in FACETS},
                   opaque=[G.opaque(out, m.group(0), 'Vec<String>')],
@@ -313,7 +339,7 @@ class UnitX(Unit):
             if c.kind == 'type':
                 emit_verbatim(out, c, f)
         fn = child(im, 'fn', 'try_from_node')
-        splice_fn(out, fn, f, 'element::ElementProps::try_from_node', probe=probe,
+        self._splice(out, fn, f, 'element::ElementProps::try_from_node', probe=probe,
                   ensures=[('element-is-alias-or-carries-its-anonymous-type', 'res is Ok ==> element_ok(node, res->Ok_0)')],
                   origin={'element-is-alias-or-carries-its-anonymous-type': 'property'},
                   opaque=[{'at': 'node.children().filter(Node::is_element)', 'call': 'element_children(node)', 'type': 'Vec<Node>', 'note': ELEM_CHILDREN_NOTE}],
@@ -335,7 +361,7 @@ class UnitX(Unit):
             if c.kind == 'type':
                 emit_verbatim(out, c, f)
         fn = child(im, 'fn', 'try_from_node')
-        splice_fn(out, fn, f, 'node::RustNode::try_from_node', probe=probe,
+        self._splice(out, fn, f, 'node::RustNode::try_from_node', probe=probe,
                   ensures=[('component-kind-follows-the-tag', 'res is Ok ==> node_ok(node, res->Ok_0)'),
                            ('in-the-current-target-namespace', 'res is Ok ==> res->Ok_0.in_namespace == current_tns(*final(doc))')],
                   origin={'component-kind-follows-the-tag': 'property', 'in-the-current-target-namespace': 'property'},
@@ -351,7 +377,7 @@ class UnitX(Unit):
         fn = child(im, 'fn', 'try_from_node')
         AFTER_CC = 'result = read_complex_content_node(element_name, n, doc)?;'
         AFTER_SEQ = 'result = read_sequence_node(element_name, n, doc)?;'
-        splice_fn(out, fn, f, 'complex::ComplexProps::try_from_node', probe=probe,
+        self._splice(out, fn, f, 'complex::ComplexProps::try_from_node', probe=probe,
                   ensures=[('content-then-attributes', 'res is Ok ==> ct_ok(node, res->Ok_0.fields@)')],
                   origin={'content-then-attributes': 'property'},
                   opaque=[{'at': 'node.children().filter(Node::is_element)', 'call': 'element_children(node)', 'type': 'Vec<Node>', 'note': ELEM_CHILDREN_NOTE}],
